@@ -5,6 +5,7 @@ import Driver.Pool
 import Driver.Slice
 import Driver.Split
 import Driver.Search
+import Driver.Compare
 
 open Driver
 
@@ -16,6 +17,7 @@ def dispatch (c : Case) : Verdict :=
   else if fam.startsWith "sl." then Driver.Slice.handle c
   else if fam.startsWith "sp." then Driver.Split.handle c
   else if fam == "find" || fam == "findlast" || fam == "contains" || fam == "starts" || fam == "ends" || fam == "blk.search" then Driver.Search.handle c
+  else if fam == "scmp" || fam == "scmpnull" || fam == "bcmp" || fam == "bcmpnull" || fam == "rawcmp" || fam == "bigcmp" || fam == "casemap" || fam == "tri" || fam == "blk.scmp" || fam == "blk.bcmp" || fam == "blk.tri" then Driver.Compare.handle c
   else { corr := false, why := "no handler for op " ++ c.op }
 
 structure Stats where
